@@ -973,8 +973,8 @@ where
                 .unwrap()
             });
         }
-        qmc.increase_cutoff_to(self.cutoff);
         qmc.set_manager(self.op_manager.unwrap());
+        qmc.set_cutoff(self.cutoff);
         qmc
     }
 }
